@@ -14,7 +14,7 @@ from vmon import contracts
 
 ID = 'C11'
 LEVEL = 'exploration'
-RULE = ('mother compartments with 14 variables covering every registered divider (set, split on ints/floats/'
+RULE = ('mother compartments with 16 variables (two of them declared only by an outside process through a glob sub-schema) covering every registered divider (set, split on ints/floats/'
         'quantities, split_dict, binomial, zero, set_value with config, default, custom function with topology, '
         'branch-level divider) and mutable values (list, numpy array, dict_value dict); mother values from grids '
         '(0, 1, odd, even, 2^53+-1, 10^17+3, 2^70-ish, numpy ints, dyadic floats, quantities, dicts of 0-9 keys); '
@@ -24,7 +24,7 @@ RULE = ('mother compartments with 14 variables covering every registered divider
         'independence phase applied >=2 in-place updates; distinct = distinct case spec. A direct grid over '
         'divider functions accompanies every case.')
 PLAN = {'quick': {'n': 4000, 'min_cases': 300}, 'thorough': {'n': 40000, 'min_cases': 5000}}
-REQUIRED_ORACLES = ['relation.split_int', 'relation.split_float', 'relation.split_dict', 'relation.binomial',
+REQUIRED_ORACLES = ['relation.outside_declared', 'relation.split_int', 'relation.split_float', 'relation.split_dict', 'relation.binomial',
                     'relation.set', 'relation.zero', 'relation.set_value', 'explicit_initial_state',
                     'defaults_complete', 'mother_removed', 'outside_unchanged', 'separate_instances',
                     'independence', 'contract.split', 'contract.split_dict', 'contract.binomial',
@@ -156,6 +156,8 @@ def gen(r, tier, i):
         'lst': [r.randint(0, 9) for _ in range(r.randint(0, 3))],
         'arr': [r.randint(0, 9), r.randint(0, 9)],
         'dv': {'m%d' % j: {'n': j} for j in range(r.randint(0, 2))},
+        'env_n': r.choice([0, 1, 7, 64, 101, 10 ** 17 + 3]),
+        'env_tag': 'mother',
     }
     overridable = ['i_set', 'i_split', 'f_split', 'bino', 'z', 'sv', 'nodiv']
     return {
@@ -232,7 +234,11 @@ def run(spec):
 
     class Div(Step if spec.get('div_as', 'step') == 'step' else Process):
         def ports_schema(self):
-            return {'agents': {'*': {'st': {'ident': {'_default': '', '_updater': 'set'}}}},
+            # env_n / env_tag are declared (with their dividers) only here, by a process outside the
+            # dividing compartment, through the glob sub-schema
+            return {'agents': {'*': {'st': {'ident': {'_default': '', '_updater': 'set'},
+                                            'env_n': {'_default': 0, '_divider': 'split'},
+                                            'env_tag': {'_default': 'none', '_updater': 'set', '_divider': 'set'}}}},
                     'cmd': {'_default': '', '_updater': 'set'}}
 
         def next_update(self, timestep, states):
@@ -444,6 +450,9 @@ def relations(V, mb, d1, d2, init1, init2, spec, mother):
         chk('relation.zero', 'z', d1['z'] == 0 and d2['z'] == 0)
     if free('sv'):
         chk('relation.set_value', 'sv', d1['sv'] == 77 and d2['sv'] == 77)
+    a, b, mm = int(d1['env_n']), int(d2['env_n']), int(mb['env_n'])
+    chk('relation.outside_declared', 'env_n', a + b == mm and abs(a - b) <= 1)
+    chk('relation.outside_declared', 'env_tag', d1['env_tag'] == 'mother' == d2['env_tag'])
     chk('relation.custom_topology', 'fnv', d1['fnv'] == mb['fnv'] + mb['z'] and d2['fnv'] == mb['fnv'] - mb['z'])
     chk('relation.branch_divider', 'grp', d1['grp'] == {'a': mb['grp']['a'], 'b': 0} and
         d2['grp'] == {'a': 0, 'b': mb['grp']['b']})
